@@ -640,6 +640,14 @@ FIXED_PROGRAMS = [
     ('kw3', 'import fpy2 as fp\n\n@fp.fpy(ctx=fp.FP64)\ndef kw3(x, y):\n    with fp.FP32:\n        a = x / y\n'
             '        with fp.FP16:\n            b = a * fp.round(1.1)\n        c = a + b\n    d = c / fp.round(3)\n'
             '    with fp.FP16:\n        e = d * x\n    return e + d\n'),
+    # an explicit rounding of an operator that selects / projects without rounding (max, min, fst, snd) is the only
+    # rounding step of the inner block
+    ('kw4', 'import fpy2 as fp\n\n@fp.fpy(ctx=fp.FP64)\ndef kw4(x, y):\n    u = x / y\n    v = x * y\n    with fp.FP16:\n'
+            '        a = fp.round(max(u, v))\n        b = fp.round(min(u, y))\n        return a + b\n'),
+    ('kw5', 'import fpy2 as fp\n\n@fp.fpy(ctx=fp.FP64)\ndef kw5(x, y):\n    t = (x / y, x * y)\n    with fp.FP16:\n'
+            '        a = fp.round(fp.fst(t))\n        b = fp.round(fp.snd(t))\n        return a - b\n'),
+    ('kw6', 'import fpy2 as fp\n\n@fp.fpy(ctx=fp.FP64)\ndef kw6(x, y):\n    u = x / y\n    with fp.FP32:\n'
+            '        a = fp.round(max(u, y))\n        with fp.FP16:\n            b = fp.round(min(a, u))\n            return b\n'),
 ]
 
 ARG_POOL_HEX = ['0x1p-1', '0x1.4p+0', '-0x1.6p+1', '0x1.8p+1', '0x1.ep+2', '0x1.99999ap-4', '0x1.19999ap+0',
